@@ -523,7 +523,7 @@ def house_front_matter(r, ext=()) -> str:
     if k < 0.45:  # identical front matter that produces a warning in every document that carries it
         key, val = r.choice(FM_OVERRIDES_BAD)
         return f"---\nmyst:\n  {key}: {val}\n---\n"
-    if k < 0.7:  # file-level-only extensions: the global configuration does not enable them
+    if k < 0.8:  # file-level-only extensions: the global configuration does not enable them
         want = [e for e in ("dollarmath", "amsmath", "deflist", "colon_fence") if e not in ext] or ["dollarmath"]
         return "---\nmyst:\n  enable_extensions: [" + ", ".join(r.sample(want, k=min(len(want), 2))) + "]\n---\n"
     key, val = r.choice(FM_OVERRIDES_OK)
